@@ -302,6 +302,8 @@ def b_type(ex, vals, s, e):
         return [X.Res(s, SV(X.TType('list'), None))]
     if isinstance(v.t, (TDict, TRec)):
         return [X.Res(s, SV(X.TType('dict'), None))]
+    if v.t is ANY:
+        return [X.Res(s, SV(X.TDynType(), v.z))]
     raise Unbound('type() of %s' % v.t)
 
 
@@ -423,6 +425,20 @@ def b_sum(ex, vals, s, e):
     raise Unbound('sum of a list')
 
 
+def b_callable(ex, vals, s, e):
+    v = vals[0]
+    if isinstance(v.t, TFun):
+        return [X.Res(s, sv_bool(True))]
+    if v.t in (INT, REAL, STR, BOOL) or isinstance(v.t, (TList, TDict, TRec)):
+        return [X.Res(s, sv_bool(False))]
+    if v.t is ANY:
+        return [X.Res(s, sv_bool(IS_CALLABLE(v.z)))]
+    raise Unbound('callable() of %s' % v.t)
+
+
+IS_CALLABLE = z3.Function('is_callable', ANY.sort(), z3.BoolSort())
+
+
 def b_eval(ex, vals, s, e):
     ex.assumed('eval(text) behaves as CPython: result treated as an opaque value')
     return [X.Res(s, SV(ANY, fresh('evaluated', ANY.sort())))]
@@ -437,7 +453,7 @@ def b_dict(ex, vals, s, e):
 BUILTINS = {
     'len': b_len, 'isinstance': b_isinstance, 'type': b_type, 'min': b_minmax(True), 'max': b_minmax(False),
     'round': b_round, 'abs': b_abs, 'int': b_int, 'float': b_float, 'str': b_str, 'range': b_range,
-    'tuple': b_tuple_list, 'list': b_tuple_list, 'dict': b_dict, 'sum': b_sum, 'eval': b_eval,
+    'tuple': b_tuple_list, 'list': b_tuple_list, 'dict': b_dict, 'sum': b_sum, 'eval': b_eval, 'callable': b_callable,
 }
 
 
